@@ -478,6 +478,29 @@ impl Model {
         }
     }
 
+    /// What node `h` showed to its dependants just before the current round's recompute of it
+    /// (or of its input, for the map_ref views).
+    fn prev_view(&self, h: Hid) -> Option<MV> {
+        let n = &self.nodes[h];
+        match &n.rk {
+            RK::MapRef { src, proj } => match self.prev_view(*src) {
+                Some(MV::P(a, b)) => Some(MV::I(if *proj == 0 { a } else { b })),
+                _ => None,
+            },
+            RK::MapRefQ { src } => match self.prev_view(*src) {
+                Some(MV::Q(a, b, _)) => Some(MV::P(a, b)),
+                _ => None,
+            },
+            _ => {
+                if n.last_run == Some(self.round) {
+                    n.prev_value
+                } else {
+                    n.value
+                }
+            }
+        }
+    }
+
     fn cached_i(&self, h: Hid) -> Option<i64> {
         self.val(h).map(|v| v.i())
     }
@@ -539,20 +562,21 @@ impl Model {
             (RK::DependOn { a, .. }, Some(_)) if !self.nodes[h].cutoff_set => self.nodes[*a].last_changed != self.nodes[h].last_changed,
             (RK::MapRef { src, .. } | RK::MapRefQ { src }, Some(o)) => {
                 let s = &self.nodes[*src];
-                let rk = self.nodes[h].rk.clone();
-                let pr = move |v: Option<MV>| match (&rk, v) {
-                    (RK::MapRef { proj, .. }, Some(MV::P(a, b))) => Some(MV::I(if *proj == 0 { a } else { b })),
-                    (RK::MapRefQ { .. }, Some(MV::Q(a, b, _))) => Some(MV::P(a, b)),
-                    _ => None,
-                };
                 // a node that stayed linked since its last recompute has heard of every change of
-                // its input: the engine then compares old and new projection exactly
+                // its input: the engine then compares the old and the new projection of what the
+                // input held (a map_ref is a view of its input's stored value)
                 let continuously = self.cone_start.contains(&h) && self.nec_before_round.contains(&h) && !self.transient.contains(&h);
-                if continuously && s.last_run == Some(round) && s.last_changed == Some(round) && s.prev_value.is_some() {
-                    match (pr(s.prev_value), pr(s.value)) {
+                if continuously && s.last_run == Some(round) && s.last_changed == Some(round) {
+                    let c = match (self.prev_view(h), self.val(h)) {
                         (Some(a), Some(b)) => !self.nodes[h].cutoff.cuts(a, b),
                         _ => true,
+                    };
+                    // a map_ref below us with a cutoff that suppresses unequal values may have
+                    // swallowed an earlier change of ours that is only surfacing now
+                    if !c && matches!(s.rk, RK::MapRef { .. } | RK::MapRefQ { .. }) && !s.cutoff.only_suppresses_equal() {
+                        maybe = true;
                     }
+                    c
                 } else {
                     // reconnected: a real difference must be reported; with an equal projection
                     // the engine may still report a change (relaxation R2)
